@@ -23,7 +23,7 @@ def workspace(c):
     """-> (files, types: name -> crate role, designated: name -> role)"""
     pcrate = c["dir"].replace("-", "_")
     ren = '#[serde(rename = "TargetRenamed")]\n' if c["renamed"] else ""
-    prov = f"#[typeshare]\n{ren}pub struct Target {{ pub t: u32 }}\n#[typeshare]\npub struct Other {{ pub o: u32 }}\n#[typeshare]\npub struct Gen<X> {{ pub g: X }}\n"
+    prov = f"#[typeshare]\n{ren}pub struct Target {{ pub t: u32 }}\n#[typeshare]\npub struct Other {{ pub o: u32, pub unit: () }}\n#[typeshare]\npub struct Gen<X> {{ pub g: X }}\n"
     files = {f"{c['dir']}/src/lib.rs": "pub mod m;\n", f"{c['dir']}/src/m.rs": prov}
     third = "#[typeshare]\npub struct Third { pub z: u32 }\n"
     if c["dup"]:
@@ -154,9 +154,13 @@ def run(chk):
             continue
         exp = cc["files"][lang]
         tname = pre + ("TargetRenamed" if c["renamed"] else "Target")
-        fobs, unreadable = [], False
+        fobs, unreadable, helpers_folder = [], False, []
         for fn in sorted(os.listdir(out)):
             if fn == "Codable.swift":
+                try:
+                    helpers_folder += observe.extract(lang, open(os.path.join(out, fn)).read()).get("helper_defs", [])
+                except Exception:  # noqa
+                    pass
                 continue
             try:
                 o = observe.extract(lang, open(os.path.join(out, fn)).read())
@@ -169,6 +173,7 @@ def run(chk):
                     imports += [{"file": imp["module"][2:] + ".ts", "name": n} for n in imp["names"]]
                 elif lang == "kotlin" and imp["module"].startswith("com.x."):
                     imports += [{"file": imp["module"].split(".")[-1] + ".kt", "name": n} for n in imp["names"]]
+            helpers_folder += o.get("helper_defs", [])
             fobs.append({"file": fn, "defs": [d["name"] for d in o["defs"]], "used": used_names(o), "imports": imports})
         if unreadable:
             chk.extra["unreadable_outputs"] = chk.extra.get("unreadable_outputs", 0) + 1
@@ -189,7 +194,8 @@ def run(chk):
             designated[tname] = exp["consumer"] if same_crate else exp["provider"]
         if same_crate:
             designated = {tname: exp["consumer"]}          # designated as the consumer crate's own type: no import at all
-        events.append({"lang": lang, "files": fobs, "expected": expected, "single_defs": [d["name"] for d in so["defs"]], "designated": designated})
+        events.append({"lang": lang, "files": fobs, "expected": expected, "single_defs": [d["name"] for d in so["defs"]], "designated": designated,
+                       "helpers_single": sorted(set(so.get("helper_defs", []))), "helpers_folder": sorted(set(helpers_folder))})
         meta.append((lang_v, c, fobs, expected))
     ok, matched, tres = common.trace_validate("Trace_C14", events, timeout=900)
     chk.add_tlc("Trace_C14", tres)
@@ -206,6 +212,8 @@ def run(chk):
                 kinds.append("wrong-file" if homes else "missing-def")
         if sorted(alld) != sorted(e["single_defs"]):
             kinds.append("defs!=single-file")
+        if e["helpers_single"] != e["helpers_folder"]:
+            kinds.append("helper-defs!=single-file")
         if lang.split("+")[0] in ("typescript", "kotlin"):
             for f in fobs:
                 for n in set(f["used"]) - set(f["defs"]):
